@@ -128,6 +128,15 @@ class FakeChannel(FakeSocket):
     def set_name(self, n):
         pass
 
+    # a subsystem that writes nothing to stderr (the stderr case is exercised over the real paramiko channel, impl/e2e.py run_stderr)
+    def recv_stderr_ready(self):
+        return False
+
+    def recv_ready(self):
+        return True
+
+    eof_received = False
+
 
 class FakeTransport:
     def __init__(self, ctl, chan):
